@@ -22,6 +22,7 @@ CONSTANTS
   ClosesPipeOnBuildError,   \* FALSE = as built (D9): error returns of buildHTTP after the goroutine start leave the pipe open
   ClosesFilesOnParamsError, \* FALSE = as built (D9b): a params-writer error after SetFileParam leaves the files open
   ClosesFilesOnFieldError,  \* FALSE = as built (D18): a failed WriteField returns before the file-closing defer is registered
+  CancelsBeforeClose,       \* TRUE = mutant: the call's own context is cancelled before the response body is closed
   FileLen,                  \* units per upload source (>= 1); unit 1 is what the content-type sniffing Read delivers
   RespLen                   \* units of the response body (>= 1)
 
@@ -102,7 +103,7 @@ CInit(c) ==
     tpc |-> "idle",        \* transport: idle start consume respond stalled fail done
     resp |-> FALSE,        \* a response was returned by the transport
     rread |-> 0, eofSeen |-> FALSE, respOpen |-> FALSE, drained |-> FALSE,
-    ctx |-> "no",          \* context of the call: no / cancel / deadline
+    ctx |-> "no",          \* context of the call: no / cancel (by the caller) / deadline / self (the call's own deferred cancel)
     now |-> 0,
     srcHit |-> FALSE ]     \* an upload source failed
 
@@ -135,14 +136,17 @@ ReaderSrcRead(c, s) ==
 BodyLimit(c) == IF c.srv.at = "body" THEN c.srv.k ELSE RespLen
 BodyEnd(c)   == IF c.srv.at = "body" THEN c.srv.kind ELSE "none"
 
-\* one Read of the response body: set of [st, r] with r in data / eof / err.  After the context is done a
-\* Read may fail at any moment (NondetReadAfterCancel: buffered data may still be delivered).
+\* one Read of the response body: set of [st, r] with r in data / eof / err (the stream's own fault) / ctxerr.  After
+\* the context is done a Read may fail at any moment (NondetReadAfterCancel: buffered data may still be delivered).
 RespRead(c, s) ==
   (IF s.rread < BodyLimit(c) THEN { [st |-> [s EXCEPT !.rread = @ + 1], r |-> "data"] }
    ELSE IF BodyEnd(c) = "none" THEN { [st |-> s, r |-> "eof"] }
    ELSE IF BodyEnd(c) \in {"close", "trunc"} THEN { [st |-> s, r |-> "err"] }
    ELSE {})   \* stalled: blocks until the context is done
-  \cup (IF s.ctx # "no" THEN { [st |-> s, r |-> "err"] } ELSE {})
+  \cup (IF s.ctx # "no" THEN { [st |-> s, r |-> "ctxerr"] } ELSE {})
+
+\* the reader returned: the deferred calls run.  As written: res.Body.Close() first, then cancel().  The mutant cancels first.
+EnterClose(s) == [s EXCEPT !.pc = "close", !.ctx = IF CancelsBeforeClose /\ @ = "no" THEN "self" ELSE @]
 
 CallerNext(c, s) ==
   CASE s.pc = "write" ->      \* operation.Params.WriteToRequest
@@ -180,14 +184,18 @@ CallerNext(c, s) ==
          ELSE IF s.ctx # "no" THEN { [s EXCEPT !.res = "err", !.pc = "returned"] }
          ELSE {}
     [] s.pc = "read" ->       \* readResponse.ReadResponse
-         IF c.reader = "p0" THEN { [s EXCEPT !.res = "ok", !.pc = "close"] }
-         ELSE { CASE x.r = "data" -> IF c.reader = "p1" THEN [x.st EXCEPT !.res = "ok", !.pc = "close"] ELSE x.st
-                  [] x.r = "eof"  -> [x.st EXCEPT !.eofSeen = TRUE, !.res = "ok", !.pc = "close"]
-                  [] OTHER        -> [x.st EXCEPT !.eofSeen = TRUE, !.res = "err", !.pc = "close"]
+         IF c.reader = "p0" THEN { EnterClose([s EXCEPT !.res = "ok"]) }
+         ELSE { CASE x.r = "data" -> IF c.reader = "p1" THEN EnterClose([x.st EXCEPT !.res = "ok"]) ELSE x.st
+                  [] x.r = "eof"  -> EnterClose([x.st EXCEPT !.eofSeen = TRUE, !.res = "ok"])
+                  [] OTHER        -> EnterClose([x.st EXCEPT !.eofSeen = TRUE, !.res = "err"])
                 : x \in RespRead(c, s) }
     [] s.pc = "close" ->      \* deferred res.Body.Close(): drainingReadCloser when reuse; then deferred cancel()
          IF c.reuse /\ ~s.eofSeen
-         THEN { IF x.r = "data" THEN x.st ELSE [x.st EXCEPT !.drained = TRUE, !.respOpen = FALSE, !.pc = "returned"]
+         THEN { CASE x.r = "data" -> x.st
+                  [] x.r = "ctxerr" ->    \* the drain is cut short.  By the caller's cancellation / the deadline: nothing more can
+                                          \* be read (DrainCutByDoneContext); by the call's own cancel: the body was not drained
+                       [x.st EXCEPT !.drained = (s.ctx \in {"cancel", "deadline"}), !.respOpen = FALSE, !.pc = "returned"]
+                  [] OTHER -> [x.st EXCEPT !.drained = TRUE, !.respOpen = FALSE, !.pc = "returned"]
                 : x \in RespRead(c, s) }
          ELSE { [s EXCEPT !.respOpen = FALSE, !.pc = "returned"] }
     [] OTHER -> {}
@@ -314,6 +322,15 @@ MinMs(a, b) == IF a < b THEN a ELSE b
 EffectiveDeadline(tsrc, timeoutMs, ctxMs, cancelMs, none) ==
   MinMs(IF tsrc = "zero" THEN none ELSE timeoutMs,
         MinMs(IF ctxMs < 0 THEN none ELSE ctxMs, IF cancelMs < 0 THEN none ELSE cancelMs))
+
+\* Sequential calls on one Runtime over a keep-alive transport (no faults): every response body is closed, and with
+\* connection reuse enabled it is drained to its end first (its end seen by the reader, or reached by the drain; a drain cut
+\* short by the *caller's* done context is the only excuse) - so the calls share one connection (KeptAliveWhenDrained:
+\* net/http keeps an HTTP/1.1 connection whose response was read to its end).
+SeqCallReleased(reuse, e) ==
+  /\ e.result = "ok" /\ e.resp_obtained /\ e.resp_closes >= 1
+  /\ reuse => e.reader_saw_end \/ e.term_before_close \/ e.drain_cut = "env"
+SeqConnsAllowed(reuse, allEnded, conns) == conns >= 1 /\ (reuse /\ allEnded => conns = 1)
 
 Obs(c, s) ==
   [ res |-> s.res, resp |-> s.resp,
